@@ -171,6 +171,11 @@ class World:
         if k == 'builtin':
             # attribute of a real class / function object (e.g. zlib.MAX_WBITS handled through module)
             return self.lift(getattr(h.obj, attr))
+        if k == 'opaque' and attr in ('eof',):
+            # boolean attribute of a library object: an uninterpreted function of the object and of how many calls it has received
+            from z3 import Function, BoolSort, IntSort, IntVal
+            n = len([c for c in p.calls if c[0].startswith(h.name + '.')])
+            return SBool(Function(f'lib_attr_{attr}', Val, IntSort(), BoolSort())(eng.to_val(p, h), IntVal(n)))
         if k in ('opaque', 'disposable'):
             return Bound(h, attr)
         raise Unsupported(f'attribute {attr} of host {h.kind}')
@@ -261,6 +266,9 @@ class World:
             return cur
         if h.kind == 'excclass':
             return [(p, ExcV(h.name, tuple(args), origin='constructed'))]
+        if h.kind == 'opaque':
+            from . import libmodels
+            return libmodels.call_object(self, eng, p, h, args, kws)
         if h.kind == 'rxop':
             return [(p, Host('observable', subscribe=None, rxop=h, source=args[0], name=f'rx.{h.name}(...)'))]
         raise Unsupported(f'call of host {h.kind} {getattr(h, "name", "")}')
@@ -286,4 +294,12 @@ class World:
         return pymodels.seq_getitem(self, eng, p, base, idx)
 
     def symbolic_comprehension(self, eng, p, e, itv, fr):
+        import ast as _ast
+        from z3 import Function
+        g = e.generators[0]
+        if isinstance(itv, Bound) and isinstance(itv.obj, SVal):
+            itv = SVal(Function(f'attr_{itv.name}', Val, Val)(itv.obj.t))
+        if isinstance(itv, SVal) and isinstance(e.elt, _ast.Name) and isinstance(g.target, _ast.Name) and e.elt.id == g.target.id:
+            # [x for x in iterable]: the items of the iterable, in order
+            return SSeq(Function('items_of', Val, ValSeq)(itv.t), 'val')
         raise Unsupported('comprehension over symbolic sequence')
